@@ -18,11 +18,13 @@ C("C04", "model_checking",
   "between registers; result class of '+' not constrained", "DESIGN.md §4 C04")
 C("C06", "exploration",
   "stateless choice-tree exploration (full product of operation sequences x read masks) on real objects with a differential fresh-object oracle and an eager reference model",
-  "Every operation sequence up to depth 2 (quick) / 3-4 (thorough) over a 15-operation alphabet of public mutators (shift, scalings, two "
-  "filters, three set_buffers forms, resample, times assignment, with_times sub/super grid, + another signal, copy) times every read mask "
-  "is executed on 7 kinds of function-backed signals (plain, ZHS, AVZ, ARZ, FFT/Full thermal noise with owned randomness), and every "
-  "attribute-assignment sequence x read mask on the four tracers and three path classes. Each execution is compared with the same "
-  "history replayed on a fresh object without intermediate reads; plain FunctionSignals are also compared with an eager longhand-DFT model.",
+  "Every operation sequence up to depth 2 (quick) / 3-4 (thorough) over a 26-operation alphabet of public mutators (shift, scalings, filters with "
+  "and without force_real, whole / fractional / forced set_buffers, resample, times assignment incl. in-place and same-length-other-step, with_times "
+  "sub/super/stretched grid, + other signals (plain, filtered, shifted), copy, operations on derived children) times every read mask "
+  "is executed on 10 kinds of function-backed signals (plain, two-component, memoising function, grid-dependent function, decimal step, ZHS, AVZ, "
+  "ARZ, FFT/Full thermal noise with owned randomness), and every attribute-assignment sequence x read mask on five tracer and four path kinds. "
+  "Each execution is compared with the same history replayed on a fresh object without intermediate reads, ray objects also with a newly "
+  "constructed object having the final defining attributes; plain FunctionSignals are also compared with an eager longhand-DFT model.",
   "in-place element writes and mutation of the ice object are outside the alphabet; exhaustive only up to the stated depth", "DESIGN.md §4 C06")
 C("C16", "exploration",
   "exhaustive finite input lattice (model x depth x frequency x scalar/array shape) with algebraic self-consistency oracles",
@@ -48,7 +50,9 @@ C("C19", "model_checking",
   "different build/trigger signatures, a nesting Grid, bare antenna, antenna list, AntennaSystem) x every parenthesisation x every assignment "
   "of + / += to the internal nodes (and sum()) x 5 keyword sets is built with the real classes; list/len/index must equal the flat "
   "construction-order list, keyword arguments must reach exactly the sub-detectors that accept them, and for every hit pattern (all 2^n "
-  "for n<=5) trigger == any(hit) (also by MC truth), clear empties everything; antennas above the surface are rejected for every leaf kind.",
+  "for n<=5, plus a noise-only-hit state) trigger == any(hit) (also by MC truth), clear empties everything; antennas above the surface "
+  "are rejected for every leaf kind. History layer: every sequence (length <= 2-3, thorough 2-4) of {observe, build the composition, build leaf i} "
+  "on every expression, then len / indexing / iteration must equal an independent walk over the leaves.",
   "leaf detectors have explicit signatures (no **kwargs); an unknown keyword may be refused or dropped", "DESIGN.md §4 C19")
 C("C14", "exploration",
   "exhaustive lattices over the owned random draws + deviation-bounded choice-tree exploration of the secondary loop + explicit-state BFS over event-tree histories, all on the real classes",
@@ -125,7 +129,9 @@ C("C12", "model_checking",
   "step in {None,1,2,3} x reader chunk size {None,2}; every one of the 2^(n-1)-1 splits of the add sequence into append sessions x modes a / r+ "
   "(also total thrown and index-table bounds); FileGenerator over every ordered list of 1-2 files x slice_range in {1..5,100} (particles replayed "
   "field by field, StopIteration, count monotone and equal to the stored totals at file ends). Every access path must return, event for event, "
-  "what one sequential single-chunk pass returns (which is itself checked against the reference log).",
+  "what one sequential single-chunk pass returns (which is itself checked against the reference log). History layer: every sequence of <= 2 "
+  "(thorough 3) access operations out of 8 on ONE open file, event objects from integer indexing re-observed at the end; append sessions also "
+  "with the file read through between sessions.",
   "zero-event files outside the alphabet; differential baseline = sequential pass validated against C11's reference log", "DESIGN.md §4 C12")
 C("C01", "exploration",
   "exhaustive finite lattice of geometries x tracers against an independent RK4 integration of the eikonal ray equations launched in the reported direction",
